@@ -60,7 +60,7 @@ class C06(E1Check):
 
     def configs(self):
         # the depth-bounded runs plus runs to the fixpoint within 2 stored points (histories of any length)
-        extra = closure_configs(("mem",)) if self.tier == "quick" else closure_configs(("mem", "csv"))
+        extra = closure_configs(("mem",))[:1] if self.tier == "quick" else closure_configs(("mem", "csv"))
         return super().configs() + extra
 
     def budget(self):
